@@ -399,6 +399,7 @@ def run(ctx):
             reach_ok += 1
     chk.floor("R07.5", "public entries that reach a builder", reach_ok, 6)
     consumed_text(chk, fb)
+    thin_wrappers(chk, fb, "R07.7")
 
 
 def _byte_length(fb, v, depth=0):
@@ -431,6 +432,54 @@ def _byte_length(fb, v, depth=0):
     if v.fn.endswith("len_utf8"):
         return True
     return False
+
+
+def thin_wrappers(chk, fb, RID):
+    """The crate-level convenience functions (eval_str, parse, parse_val) are the pipeline and nothing else: every return is
+    either an Err or, unchanged, the result of the single pipeline call on the unchanged text (for eval_str: the evaluation of
+    the parsed expression).  A shortcut around the tokenizer accepts texts the grammar rejects; a post-processing of the
+    value changes what an operator computes."""
+    chk.rule(RID, "eval_str / parse / parse_val return only Err or, unchanged, the result of the parse (and eval) pipeline on the unchanged text")
+    want = {
+        "eval_str": r"^expression::Express::eval\(ok\(expression::flat::FlatEx::<T, OF, LMF>::(parse_wo_compile|parse)\(text\)\), \(\)\)$|^expression::Express::eval\(ok\(expression::Express::parse\(text\)\), \(\)\)$",
+        "parse": r"^expression::Express::parse\(text\)$",
+        "parse_val": r"^expression::Express::parse\(text\)$",
+    }
+    n = 0
+    for nm, rx in want.items():
+        bs = [b for p_, b in fb.bodies.items() if b["kind"] == "Fn" and b.get("name") == nm and b["arg_count"] == 1 and p_ in (nm, "value::" + nm)]
+        if nm == "parse_val" and "value" not in fb.features:
+            continue
+        if len(bs) != 1:
+            chk.violation(RID, "anchor:%s" % nm, "crate-level function %s not found" % nm)
+            continue
+        b = bs[0]
+
+        class PW(Policy):
+            loop_mode = "widen"
+        ps = [q for q in Interp(fb, PW()).run(b, [Sym("text")]) if q.status != "unreachable"]
+        bad = None
+        oks = 0
+        for q in ps:
+            if q.status != "return":
+                bad = "%s %s" % (q.status, q.note)
+                break
+            r = q.result
+            if isinstance(r, Variant) and r.variant == "Err":
+                continue
+            s = rel.cstr(r)
+            if re.match(rx, s):
+                oks += 1
+            else:
+                bad = "returns %s" % s[:140]
+                break
+        n += 1
+        if bad or not oks:
+            chk.violation(RID, "wrapper:%s" % nm, "%s is not a thin wrapper of the pipeline: %s" % (nm, bad or "no path returns the pipeline's result"), loc(b["span"]))
+        else:
+            chk.ok(RID, "%s returns the pipeline's result unchanged (or Err)" % nm, "%d paths" % len(ps), loc(b["span"]))
+    if n < 2:
+        chk.violation(RID, "floor", "only %d crate-level wrappers analysed" % n)
 
 
 def consumed_text(chk, fb):
